@@ -252,13 +252,11 @@ static void queue_ops(int me, int slot)
 	else if (k < 16) { if (atomic_load(&g_hold[me][slot]) > 1) do_release(me, slot); }
 	else if (k < 40) it = new_item(slot, IK_ASYNC, pick_body(), 1, 0);
 	else if (k < 50) it = new_item(slot, IK_BASYNC, pick_body(), 1, 0);
-	/* legacy-retarget executions: no client dispatch_sync / dispatch_apply on the queue while another thread retargets
-	 * it.  In the pinned library _dispatch_sync_complete_recurse re-reads dq->do_targetq AFTER it unlocked dq, so a
-	 * retarget barrier that runs in between makes the sync caller "complete" queues it never locked (dq_state
-	 * underflow, the new targets stay suspended for ever).  That is a lane-state defect outside C17 (reported to the
-	 * coordinator); triggering it here would only produce hangs that are not C17's to judge. */
-	else if (k < 60) it = new_item(slot, g_legacy ? IK_ASYNC : IK_SYNC, vrt_rand() & 1 ? B_SPIN : B_NONE, 1, 0);
-	else if (k < 66) it = g_legacy ? new_item(slot, IK_BASYNC, B_NONE, 1, 0) : new_item(slot, IK_APPLY, B_NONE, 3, 0);
+	/* (legacy-retarget executions used to avoid client dispatch_sync / dispatch_apply next to the retargets: the pinned
+	 * _dispatch_sync_complete_recurse re-read dq->do_targetq after it had unlocked dq - finding F4, fixed by ea40453 and
+	 * guarded by C01's Retarget.tla / drv_retarget - so they are back in the mix) */
+	else if (k < 60) it = new_item(slot, IK_SYNC, vrt_rand() & 1 ? B_SPIN : B_NONE, 1, 0);
+	else if (k < 66) it = new_item(slot, IK_APPLY, B_NONE, 3, 0);
 	else if (k < 74) { if (g_after && slot == 2) it = new_item(slot, IK_AFTER, B_NONE, 1, 0); else it = new_item(slot, IK_ASYNC, B_SLEEP, 1, 0); }
 	else if (k < 82) {
 		vrt_api("Susp", o->idx, 0, 0, 0);
